@@ -113,22 +113,25 @@ func (ca *CA) Issue(o CertOpts) (*Cert, error) {
 
 // DaemonOpts configures one real dirk daemon.
 type DaemonOpts struct {
-	Race        bool // run the daemon binary built with -race (see RaceDirkBin)
-	Dir         string
-	ID          uint64
-	IP          string // 127.0.0.x
-	Port        int
-	CA          *CA  // authority for server and client certificates
-	NoCAInCfg   bool // leave certificates.ca-cert out of the configuration
-	Peers       map[uint64]string
-	Permissions map[string]map[string][]string // client -> path -> operations
-	AdminIPs    []string
-	NDWallets   map[string][]string // wallet -> accounts (keys DetKey("ndw-<wallet>", i), passphrase "pass")
-	DistWallets []string
-	GenTimeout  string
-	LogLevel    string
-	Env         []string
-	Wrapper     []string // command prefix, e.g. {"prlimit", "--as=..."}
+	Race      bool // run the daemon binary built with -race (see RaceDirkBin)
+	Dir       string
+	ID        uint64
+	IP        string // 127.0.0.x
+	Port      int
+	CA        *CA  // authority for server and client certificates
+	NoCAInCfg bool // leave certificates.ca-cert out of the configuration
+	// ServerChainExtra is appended to the server certificate file (a "full-chain" bundle): certificates that travel
+	// with the server's own must never become authorities for client certificates.
+	ServerChainExtra []byte
+	Peers            map[uint64]string
+	Permissions      map[string]map[string][]string // client -> path -> operations
+	AdminIPs         []string
+	NDWallets        map[string][]string // wallet -> accounts (keys DetKey("ndw-<wallet>", i), passphrase "pass")
+	DistWallets      []string
+	GenTimeout       string
+	LogLevel         string
+	Env              []string
+	Wrapper          []string // command prefix, e.g. {"prlimit", "--as=..."}
 }
 
 // Daemon is a running dirk child process.
@@ -156,7 +159,7 @@ func PrepareDaemon(o DaemonOpts) (*Daemon, error) {
 		_ = os.WriteFile(p, data, 0o600)
 		return p
 	}
-	crt, key, cacrt := write("server.crt", server.CertPEM), write("server.key", server.KeyPEM), write("ca.crt", o.CA.CertPEM)
+	crt, key, cacrt := write("server.crt", append(append([]byte{}, server.CertPEM...), o.ServerChainExtra...)), write("server.key", server.KeyPEM), write("ca.crt", o.CA.CertPEM)
 	walletDir := filepath.Join(o.Dir, "wallets")
 	if _, err := os.Stat(walletDir); err != nil {
 		store := filesystem.New(filesystem.WithLocation(walletDir))
